@@ -13,15 +13,15 @@ CONF_RW = (25, 400)
 # property -> list of (profile, quick_count, thorough_count)
 PLANS = {
     "C01": [("base", 250, 6000), ("quit", 120, 2500), ("errors", 60, 1500)],
-    "C03": [("churn", 250, 6000), ("timeout", 80, 2000), ("bclose", 80, 2000), ("leftover", 80, 2000)],
-    "C07": [("base", 200, 5000), ("fwdonly", 150, 4000), ("errors", 150, 4000)],
+    "C03": [("churn", 250, 6000), ("timeout", 80, 2000), ("bclose", 80, 2000), ("leftover", 80, 2000), ("redirect", 100, 2500)],
+    "C07": [("base", 200, 5000), ("fwdonly", 150, 4000), ("errors", 150, 4000), ("redirect", 120, 3000), ("errredir", 80, 2000)],
     "C09": [("gate", 250, 6000), ("fwdonly", 150, 4000)],
     "C10": [("base", 200, 5000), ("fwdonly", 200, 5000), ("redirect", 150, 4000), ("redirorder", 60, 1500)],
     "C11": [("errors", 300, 8000), ("errredir", 250, 6000), ("hssplit", 30, 600)],
     "C13": [("redirect", 300, 7000), ("redirunk", 150, 3000), ("errredir", 150, 3000), ("redirtimeout", 150, 4000), ("redirmany", 40, 800)],
     "C15": [("bclose", 300, 7000), ("redirunk", 150, 3000), ("partialloss", 40, 1000)],
     "C16": [("timeout", 400, 10000), ("redirtimeout", 200, 5000), ("redirexpire", 80, 2000), ("ripen", 16, 300)],
-    "C06": [("base", 120, 3000), ("fwdonly", 120, 3000)],
+    "C06": [("base", 120, 3000), ("fwdonly", 120, 3000), ("redirect", 100, 2500)],
     "C08": [],
     # the event-loop side of C12 (lib/raw_checks.py holds the byte-level catalogue and calls run() here)
     "C12": [("hostile", 250, 6000)],
@@ -233,10 +233,29 @@ def run(pid, tier, seed):
             if not q:
                 bp += [raw_checks.backend_backpressure_scenario("bp-backend-2", nbig=30, bigsize=9000, rounds=8, chunk=25000),
                        raw_checks.backend_backpressure_scenario("bp-backend-3", nbig=6, bigsize=60000, rounds=6, chunk=70000)]
+            # a request larger than the static part itself, with small ones behind it in the same write
+            bp += [raw_checks.backend_large_request_scenario("bp-large-1"),
+                   raw_checks.backend_large_request_scenario("bp-large-2", prefill=0, big=200000, pause=False)]
+            if not q:
+                bp += [raw_checks.backend_large_request_scenario("bp-large-3", prefill=45000, big=66000),
+                       raw_checks.backend_large_request_scenario("bp-large-4", prefill=9000, big=300000, tail=6),
+                       raw_checks.backend_large_request_scenario("bp-large-5", prefill=0, big=1500000, pause=False)]
             groups.append((dict(raw_checks.BP_CFG), bp, "bp", None))
             specs["bp"] = dict(spec="RawTrace", cfgfile="RawTrace.cfg", par=2)
             groups.append((dict(raw_checks.BP_CFG_MID), [raw_checks.backend_backlog_scenario("bp-backlog-1")], "bp2", None))
             specs["bp2"] = dict(spec="OrderTrace", cfgfile="OrderTrace.cfg", par=1)
+        if pid == "C13":
+            # redirected requests far larger than the static parts of the proxy's buffers: re-sent whole, byte for byte
+            import raw_checks
+            rl = [raw_checks.redirected_large_request_scenario("redir-large-1"),
+                  raw_checks.redirected_large_request_scenario("redir-large-2", 70000, "ask", "n3"),
+                  raw_checks.redirected_large_request_scenario("redir-large-3", 300000, "moved", "n3", True)]
+            if not q:
+                rl += [raw_checks.redirected_large_request_scenario("redir-large-%d" % (4 + k), sz, kind, to, tw)
+                       for k, (sz, kind, to, tw) in enumerate([(65000, "moved", "n2", False), (66000, "ask", "n2", True), (140000, "ask", "n3", False),
+                                                               (1000000, "moved", "n2", True), (30000, "ask", "n2", True), (2500000, "ask", "n3", False)])]
+            groups.append(({"masters": 3, "mode": "step", "rawLog": True}, rl, "redirlarge", None))
+            specs["redirlarge"] = dict(spec="RawTrace", cfgfile="RawTrace.cfg", par=3)
         viol = []
         groups = [g for g in groups if g[1]]
 
